@@ -174,7 +174,10 @@ func genC06(t *rapid.T) C06Case {
 		switch {
 		case r < 6 && len(keys) > 0:
 			key := rapid.SampledFrom(keys).Draw(t, "key")
-			// prefer keys of options that have aliases
+			// prefer an alias of the drawn option when it has one
+			if al := lv.Visible[key].Spec.Aliases; len(al) > 0 && rapid.IntRange(0, 3).Draw(t, "usealias") > 0 {
+				key = rapid.SampledFrom(al).Draw(t, "aliaskey")
+			}
 			c.Plan = append(c.Plan, PlanItem{Occ: genOcc(t, spec, lv, key)})
 		case r < 8:
 			w := rapid.SampledFrom([]string{"foo", "bar", "baz", "", "k=v", "1"}).Draw(t, "word")
